@@ -2,8 +2,10 @@
 """keep_seed.py <PROP> <N>: copy a confirmed seeded change from /tmp/wt-<PROP>/SEED/seed<N> to /verif/seeded/<PROP>-s<N>/"""
 import json, os, shutil, sys, glob
 prop, n = sys.argv[1], sys.argv[2]
-src = f"/tmp/wt-{prop}/SEED/seed{n}"
-dst = f"/verif/seeded/{prop}-s{n}"
+prefix = sys.argv[3] if len(sys.argv) > 3 else "/tmp/wt-"
+offset = int(sys.argv[4]) if len(sys.argv) > 4 else 0
+src = f"{prefix}{prop}/SEED/seed{n}"
+dst = f"/verif/seeded/{prop}-s{int(n) + offset}"
 log = open(os.path.join(src, "confirm.log")).read()
 assert log.strip().endswith("CONFIRMED") and "NOT-CONFIRMED" not in log, log
 os.makedirs(dst, exist_ok=True)
